@@ -173,7 +173,7 @@ let () = iter_lines (fun line ->
   | "plist" :: mx :: ops ->
       let (p, rs) = prun pl_progs (List.map parse_pop ops) { pmax = z_of_dec mx; players = [] } in
       Printf.printf "%s = %s | %s\n" line (String.concat " " (List.map show_pres rs))
-        (String.concat "," (List.map dec_of_n p.players))
+        (String.concat "," (List.map string_of_int (List.sort compare (List.map int_of_n p.players))))
   | ["disc"] ->
       Printf.printf "disc = %s\n" (String.concat " " (List.map (fun l -> if disciplined [] l then "ok" else "BAD") packet_seqs))
   | _ -> Printf.printf "?? %s\n" line)
